@@ -1,6 +1,6 @@
 import time, vf
 PID = "C03"
-NSCRIPTS = 67          # harness.cpp main(): 1 + 3*(1+2*7) + 3*(1+2*3)
+NSCRIPTS = 85          # harness.cpp main(): 67 + 3*(1+2) + 3*3 timer scripts
 NCFG = 7
 def main(tier, args):
     t0 = time.time()
@@ -8,7 +8,7 @@ def main(tier, args):
                    plain_srcs=[vf.VERIF + "/engine/sched/log_stub.cpp"])
     # lane 0 = base menu, all scripts; lane 1 = life-cycle menu (re-initialise / re-create / close peer; at most 2 of them per history) on the scripts the harness selects for it.
     # One process per (configuration, lane, partition of the first operation): evaluations that do not depend on the script are shared inside a process.
-    depth, depth1, dl, np0, np1, cap = (5, 4, 80, 2, 4, 60000) if tier == "quick" else (7, 5, 1300, 2, 4, 300000)
+    depth, depth1, dl, np0, np1, cap = (5, 4, 80, 3, 4, 60000) if tier == "quick" else (7, 5, 1300, 2, 4, 300000)
     res = vf.Result(); log = open(vf.BUILD + "/C03/log.txt", "w")
     jobs = []
     for cfg in range(NCFG):
@@ -23,25 +23,29 @@ def main(tier, args):
                                  "ASAN_OPTIONS": "detect_leaks=0:abort_on_error=0:quarantine_size_mb=16",
                                  # thorough: close+enable and re-open also as two separate operations (VERIF_C03_PASS_ON_CLOSED_FD stays off: a loop pass while an
                                  # enabled event sits on a closed descriptor number is outside the property - the number is re-used by the loop's own wake-up fd)
-                                 "VERIF_C03_SPLIT_REUSE": "0" if tier == "quick" else "1"}, log=log, jobs=16)
+                                 "VERIF_C03_SPLIT_REUSE": "0" if tier == "quick" else "1",
+                                 # thorough: the life-cycle lane also feeds / hangs up the third descriptor and injects the wait failure
+                                 "VERIF_C03_FEED3": "0" if tier == "quick" else "1", "VERIF_C03_EINTR_LANE1": "0" if tier == "quick" else "1"}, log=log, jobs=16)
     vf.finish(PID, tier, res, t0,
-              rule="BFS over all histories (depth %d) of enable/disable/feed/drain/pass on 7 configurations of 3 real FdEvents (shared descriptor, read/write/read|write/read|except/except-only masks, persistent and one-shot, pipes and a socketpair) x 67 callback scripts "
+              rule="BFS over all histories (depth %d) of enable/disable/feed/drain/pass/pass-whose-select()/epoll_wait()-call-fails-once-with-EINTR (harness-defined select/epoll_wait; at most one failure per history; base lane, thorough: both lanes; socket configurations also fill/unfill the socket so that write-readiness goes away and comes back) on 7 configurations of 3 real FdEvents (shared descriptor, read/write/read|write/read|except/except-only masks, persistent and one-shot, pipes and a socketpair) x 85 scripts "
                    "(disable self; re-arm self (one-shot enable / persistent disable+enable); disable/enable/disable+enable/destroy another event on the same or on another descriptor ready in the same pass; destroy + create a new event on a third descriptor or on the SAME descriptor; "
-                   "destroy + close; re-initialise another event onto a third descriptor and enable it; disable/destroy one event and enable a third one in the same callback; scripts that are images of an earlier script under a renaming of identical events are skipped); "
+                   "destroy + close; re-initialise another event onto a third descriptor and enable it; disable/destroy one event and enable a third one in the same callback; the running event moves ITSELF to a third descriptor, alone or after destroying a sibling; 9 TIMER scripts whose action (destroy / destroy+new-on-same-descriptor / move-to-third-descriptor another event) runs in a 0 ms timer callback, i.e. between the back-end's harvest and its dispatch; scripts that are images of an earlier script under a renaming of identical events are skipped); "
                    "plus a life-cycle lane (depth %d; scripts none/disable-self/re-arm-self/destroy/enable) whose menu adds, at most twice per history, initialize() again onto the next descriptor or with the next mask (also on an enabled event, which must change nothing), "
-                   "destroy+re-create an event, closing the peer of a pipe (EOF/HUP readiness), and 'close the descriptor of a disabled event, enable() it (the kernel may refuse: the model follows enable()'s return value - true: enabled on that descriptor number, false: not enabled, never to be called), "
+                   "destroy+re-create an event, closing the peer of a pipe (EOF/HUP readiness; thorough: this lane also feeds / hangs up the third descriptor), and 'close the descriptor of a disabled event, enable() it (the kernel may refuse: the model follows enable()'s return value - true: enabled on that descriptor number, false: not enabled, never to be called), "
                    "re-open a new pipe/socket with the SAME descriptor number' (thorough: also as two operations with anything but a pass in between); after such an operation only the safety clauses are judged in that history. A pipe that already holds a byte is not fed again and an empty one is not drained (harness-side no-ops). "
-                   "Each evaluated history runs in a forked child under ASan on FOUR loops: epoll and select with per-fd records de-pooled, epoll and select with the record pool as shipped (recycling) and a 2-entry epoll_wait array (growth branch). "
-                   "An evaluation in which the script's actor was never called does not depend on the script and is executed once per process and shared between its scripts (counter evaluations_shared_between_scripts; 'executions' counts forked children only); "
+                   "Each evaluated history runs under ASan on FOUR loops: epoll and select with per-fd records de-pooled and ascending descriptor numbers (the loop's own wake-up fd is the highest), epoll and select with the record pool as shipped (recycling), a 2-entry epoll_wait array (growth branch; a pass with more than 2 served descriptors is not judged for completeness there) "
+                   "and DESCENDING descriptor numbers with holes below them (select serves them in the opposite order and the wake-up fd is the lowest). Evaluations run in forked children, one child per group of sibling histories (re-run one history per child if the child dies). "
+                   "An evaluation in which the script's actor was never called does not depend on the script and is executed once per process and shared between its scripts ('executions' = histories really executed, each on the four loops; 'evaluations_reused' = requests answered from an earlier execution; 'children_forked' = processes; a timer script never re-uses a history that contains a pass); "
                    "every script is explored to depth-1 first and then to the full depth re-using the first round. "
-                   "State key = model + kernel readiness + every event's fd/mask/flags + per-fd record ref/counters/subscriber ORDER + pool occupancy + epoll interest masks as held by the implementation and by the kernel (/proc/self/fdinfo), sent as a 128-bit digest. "
+                   "State key = model + kernel readiness + every event's fd/mask/flags + per-fd record ref/counters/subscriber ORDER + pool occupancy + epoll interest masks as held by the implementation and by the kernel (/proc/self/fdinfo) + the ORDER of the kernel's epoll ready list, sent as a 128-bit digest; private fields are read through engine/probe.h (a missing one makes the key finer: last 3 operations appended). "
                    "Oracle: model-enabled and alive at callback time, reported conditions within the poll() snapshot (read/write/except), one-shot disabled in callback, never twice per pass, no exception, isEnabled agrees; "
-                   "in every pass in which the script's actor was not called or acts only on itself the callbacks must equal {enabled events whose descriptor is ready for a subscribed condition} with exactly those conditions; "
-                   "and all four loops deliver the same callbacks per pass up to the first pass in which the actor was called while more than one descriptor was served" % (depth, depth1),
+                   "in every pass (without injected failure) in which the script's actor was not called, acts only on itself, or is the timer and only removed subscribers, the callbacks must equal {enabled events whose descriptor is ready for a subscribed condition} with exactly those conditions; "
+                   "and all four loops deliver the same callbacks per pass up to the first pass in which the actor was called while more than one descriptor was served (a pass with an injected wait failure demands nothing but the safety clauses and ends the comparison only if somebody was called)" % (depth, depth1),
               assumptions=["readiness is the poll(fd,0) snapshot taken immediately before the pass (DESIGN 1.7); EOF/HUP counts as readable",
                            "a closed descriptor's number is not reused within the same pass; no event is left on a descriptor that gets closed",
                            "events do not delete themselves inside their own callback (asserted illegal by the code)",
                            "initialize() on an enabled event changes nothing (the code refuses it); a re-initialised event keeps its persistent/one-shot mode",
                            "peer close is produced on pipes only (error/HUP on the write side of a socket is reported differently by the two kernel interfaces by design)",
                            "what an event that was enable()d on a closed descriptor is due afterwards is not judged (only: no callback unless the model holds it enabled and its descriptor number is ready, none on destroyed events); no loop pass runs while that descriptor is still closed",
+                           "an injected EINTR leaves the fd sets / the event array untouched, as the kernel does; nothing is demanded about who is served in such a pass except that nobody is called whose descriptor is not ready",
                            "the code under test is deterministic for a given history (sharing of script-independent evaluations relies on it, as replaying does)"])
